@@ -461,6 +461,7 @@ func (c *classifier) classify() string {
 	for _, st := range c.rs.Body.List {
 		visit(st, 0)
 	}
+	c.crossDependence()
 	// sorted afterwards in the same function?
 	if len(c.apps) > 0 && c.w.body != nil {
 		ast.Inspect(c.w.body, func(n ast.Node) bool {
@@ -492,6 +493,161 @@ func (c *classifier) classify() string {
 	}
 	sort.Strings(fl)
 	return strings.Join(fl, "+")
+}
+
+// crossDependence sets the flag "xdep" when one iteration of the loop decides what it writes to an
+// outer variable by reading ANOTHER outer variable that the loop also writes (in an earlier or
+// later iteration): `case "type": typeS = v; case "index": if typeS == … { port = … }`.  Such a body
+// is order sensitive even though each single statement is a plain assignment (class "accum").
+// Self-dependence (`if s != "" { s += "," }`, `n++`, `x = x + …`) is the ordinary accumulate and
+// is not flagged; reads of cells indexed by the ranged key are not flagged either.
+func (c *classifier) crossDependence() {
+	written := map[types.Object]bool{}
+	outerRoot := func(e ast.Expr) types.Object {
+		if c.mentionsKey(e) {
+			return nil
+		}
+		root := c.rootIdent(e)
+		if root == nil || root.Name == "_" {
+			return nil
+		}
+		o := c.w.info.ObjectOf(root)
+		if o == nil || c.local(o) {
+			return nil
+		}
+		if _, isVar := o.(*types.Var); !isVar {
+			return nil
+		}
+		return o
+	}
+	ast.Inspect(c.rs.Body, func(n ast.Node) bool {
+		switch x := n.(type) {
+		case *ast.AssignStmt:
+			if x.Tok != token.DEFINE {
+				for _, l := range x.Lhs {
+					if o := outerRoot(l); o != nil {
+						written[o] = true
+					}
+				}
+			}
+		case *ast.IncDecStmt:
+			if o := outerRoot(x.X); o != nil {
+				written[o] = true
+			}
+		}
+		return true
+	})
+	if len(written) < 2 {
+		return
+	}
+	reads := func(e ast.Node) map[types.Object]bool {
+		r := map[types.Object]bool{}
+		if e == nil {
+			return r
+		}
+		ast.Inspect(e, func(n ast.Node) bool {
+			if id, ok := n.(*ast.Ident); ok {
+				if o := c.w.info.ObjectOf(id); o != nil && written[o] {
+					r[o] = true
+				}
+			}
+			return true
+		})
+		return r
+	}
+	writes := func(n ast.Node) map[types.Object]bool {
+		w := map[types.Object]bool{}
+		if n == nil {
+			return w
+		}
+		ast.Inspect(n, func(m ast.Node) bool {
+			switch x := m.(type) {
+			case *ast.AssignStmt:
+				if x.Tok != token.DEFINE {
+					for _, l := range x.Lhs {
+						if o := outerRoot(l); o != nil {
+							w[o] = true
+						}
+					}
+				}
+			case *ast.IncDecStmt:
+				if o := outerRoot(x.X); o != nil {
+					w[o] = true
+				}
+			}
+			return true
+		})
+		return w
+	}
+	cross := func(rd, wr map[types.Object]bool) bool {
+		for r := range rd {
+			for w := range wr {
+				if r != w {
+					return true
+				}
+			}
+		}
+		return false
+	}
+	ast.Inspect(c.rs.Body, func(n ast.Node) bool {
+		switch x := n.(type) {
+		case *ast.AssignStmt:
+			if x.Tok == token.DEFINE {
+				return true
+			}
+			wr := map[types.Object]bool{}
+			for _, l := range x.Lhs {
+				if o := outerRoot(l); o != nil {
+					wr[o] = true
+				}
+			}
+			rd := map[types.Object]bool{}
+			for _, r := range x.Rhs {
+				for o := range reads(r) {
+					rd[o] = true
+				}
+			}
+			if cross(rd, wr) {
+				c.flags["xdep"] = true
+			}
+		case *ast.IfStmt:
+			wr := writes(x.Body)
+			for o := range writes(x.Else) {
+				wr[o] = true
+			}
+			rd := reads(x.Cond)
+			for o := range reads(x.Init) {
+				rd[o] = true
+			}
+			if cross(rd, wr) {
+				c.flags["xdep"] = true
+			}
+		case *ast.SwitchStmt:
+			if x.Tag != nil && cross(reads(x.Tag), writes(x.Body)) {
+				c.flags["xdep"] = true
+			}
+			for _, cc := range x.Body.List {
+				if cl, ok := cc.(*ast.CaseClause); ok {
+					rd := map[types.Object]bool{}
+					for _, e := range cl.List {
+						for o := range reads(e) {
+							rd[o] = true
+						}
+					}
+					wr := map[types.Object]bool{}
+					for _, st := range cl.Body {
+						for o := range writes(st) {
+							wr[o] = true
+						}
+					}
+					if cross(rd, wr) {
+						c.flags["xdep"] = true
+					}
+				}
+			}
+		}
+		return true
+	})
 }
 
 func (c *classifier) call(call *ast.CallExpr) {
